@@ -179,8 +179,13 @@ func main() {
 	seed := flag.Uint64("seed", 1, "seed")
 	out := flag.String("out", "", "result file")
 	replay := flag.String("replay", "", "replay file (re-run only the recorded failures)")
+	scenario := flag.String("scenario", "", "(internal) run one life-cycle scenario in this process and print its result")
 	flag.Parse()
 	_ = replay
+	if *scenario != "" {
+		childMain(*scenario)
+		return
+	}
 	f, ok := props[*prop]
 	if !ok {
 		var ids []string
